@@ -87,7 +87,6 @@ PROPS = {
             'any handler listed as body=assumed in functions_under_contract (none at the time of writing; SETXATTR is verified with Iterator::position(is NUL) replaced by a model call)',
             'that result-less calls (forget, batch_forget, destroy) happen at least once, and "exactly one call" as opposed to "no other call": capabilities forbid every other call but cannot demand one',
             'identity of the payload reader handed to FileSystem::write and of the writer handed to read (only their non-stream arguments are pinned)',
-            'Arc<FS> forwarding of readdir / readdirplus (&mut dyn FnMut)',
         ],
         trusted=['T3 as C01', 'T8 F::Inode / F::Handle conversions are functions (vstd FromSpec / IntoSpec obeys_*)',
                  'contract-only helper: ServerUtil::get_message_body (unsafe set_len); bytes_to_cstr and ServerUtil::extract_two_cstrs are verified on their real text in unit cstrs against the very contracts unit server assumes (std only is assumed there: Iterator::position(is NUL), range indexing with the in-bounds condition as an obligation, CStr::from_bytes_with_nul as documented)'],
